@@ -83,6 +83,7 @@ class Profile:
     same_typedef_name_other_ns: bool = False
     typedef_weight: int = 1
     identity_methods: bool = False
+    reopen_ns: bool = False           # the same namespace opened twice in one scope
     defaults: bool = True
     typedef_needs_target: bool = False
     template_modes: Tuple[str, ...] = ('all', 'all', 'all', 'none', 'mixed')
@@ -138,6 +139,8 @@ class Ctx:
         self.fn_groups = {}     # (path, name) -> expansions of the overloads so far
         self.enum_class_lower = set()  # lower-cased names of classes with nested enums
         self.member_kinds = {}  # (path, class) -> (property names, method names) incl. inherited
+        self.block = {}         # namespace path -> number of blocks opened so far
+        self.fn_block = {}      # (path, function name) -> block that declares it
 
     def names(self, path):
         return self.used.setdefault(path, set())
@@ -343,6 +346,17 @@ def arg_lists(draw, ctx: Ctx, tparams=(), this=False, max_args=None, min_args=0)
         nm = draw(lower_name(ARG_POOL, used))
         used.add(nm)
         t = draw(types(ctx, prof.type_depth, tparams, this=this))
+        with_targs = [a.type for a in args if a.type.targs]
+        if with_targs and not prof.compilable and draw(st.integers(0, 3)) == 0:
+            # the same templated type again, one argument of it qualified differently
+            # (std::vector<T*> next to std::vector<T>)
+            t0 = draw(st.sampled_from(with_targs))
+            k_ = draw(st.integers(0, len(t0.targs) - 1))
+            a0 = t0.targs[k_]
+            if not a0.name.isdigit():
+                a1 = replace(a0, ptr=draw(st.sampled_from([p_ for p_ in ('', '*', '&', '@')
+                                                           if p_ != a0.ptr])))
+                t = replace(t0, targs=t0.targs[:k_] + (a1,) + t0.targs[k_ + 1:])
         args.append(M.Arg(t, nm, None))
     if prof.defaults and args:
         if prof.trailing_defaults:
@@ -630,7 +644,13 @@ def classes(draw, ctx: Ctx, path: Tuple[str, ...]):
                 mt = draw(templates(ctx, used=ctp, force_lists=True, max_params=2))
                 ctx.scoped_ok |= {p.name for p in mt.params if not any(i.targs for i in p.insts)}
             tps = ctp + (tuple(mt.names()) if mt else ())
-            mname = draw(lower_name(mnames, prop_names | {name}))
+            same_kind = sorted({x.name for x in members
+                                if isinstance(x, M.Method if k == 'method' else M.Static) and
+                                x.name not in ('serialize', 'serializable')})
+            if same_kind and draw(st.integers(0, 3)) == 0:
+                mname = draw(st.sampled_from(same_kind))  # an overload of an earlier member
+            else:
+                mname = draw(lower_name(mnames, prop_names | {name}))
             r = draw(rets(ctx, tps, this=True))
             a = draw(arg_lists(ctx, tps, this=True))
             if prof.compilable and last_args[0] and mt is None and draw(st.integers(0, 3)) == 0:
@@ -732,6 +752,11 @@ def functions(draw, ctx: Ctx, path):
     if prof.compilable:
         classes_here = classes_here | ctx.var_names.get(path, set()) | \
             {pth[len(path)] for pth in ctx.used if len(pth) > len(path) and pth[:len(path)] == path}
+    blk = ctx.block.get(path, 0)
+    if findings.is_open('F-36-matlab-overloads-across-namespace-blocks'):
+        # an overload set stays within one block of a namespace that is opened several times
+        classes_here = classes_here | {n for (p_, n), b_ in ctx.fn_block.items()
+                                       if p_ == path and b_ != blk}
     earlier = sorted(n for (p_, n) in ctx.fn_count if p_ == path and n not in classes_here and
                      (p_, n) not in ctx.locked)
     if earlier and draw(st.integers(0, 2)) == 0:
@@ -739,6 +764,7 @@ def functions(draw, ctx: Ctx, path):
     else:
         name = draw(lower_name(pool, classes_here))
     ctx.fn_count[(path, name)] = ctx.fn_count.get((path, name), 0) + 1
+    ctx.fn_block.setdefault((path, name), blk)
     r = draw(rets(ctx, tps))
     a = draw(arg_lists(ctx, tps))
     if prof.compilable and any(x.name == name for x in a):
@@ -779,7 +805,8 @@ def typedefs(draw, ctx: Ctx, path):
     if shared and draw(st.booleans()):
         targets = shared
     if targets:
-        d = draw(st.sampled_from(targets))
+        # (often the template declared last)
+        d = targets[-1] if draw(st.integers(0, 2)) == 0 else draw(st.sampled_from(targets))
         ns, nm, n = d.path, d.name, d.nparams
         ctx.locked.add((d.path, d.name))
     elif prof.typedef_needs_target:
@@ -861,6 +888,7 @@ def variables(draw, ctx: Ctx, path):
 @st.composite
 def contents(draw, ctx: Ctx, path: Tuple[str, ...], depth_left: int, max_items=None, lead=()):
     prof = ctx.prof
+    ctx.block[path] = ctx.block.get(path, 0) + 1  # which block of this namespace
     n = max(draw(st.integers(0, prof.max_items if max_items is None else max_items)), len(lead))
     kinds = ['class', 'class', 'class']
     if prof.free_functions:
@@ -920,6 +948,14 @@ def contents(draw, ctx: Ctx, path: Tuple[str, ...], depth_left: int, max_items=N
             # the same leaf name under another parent (a::detail, b::detail) is ordinary C++
             leaves = sorted({p_[-1] for p_ in ctx.ns_paths} - set(ns_used) - set(path))
             lead_ = ()
+            here = sorted({p_[-1] for p_ in ctx.ns_paths if p_[:-1] == path})
+            if prof.reopen_ns and here and draw(st.integers(0, 2)) == 0:
+                # a namespace is opened again (the next interface file of a project does that)
+                nm = draw(st.sampled_from(here))
+                again = ('class', 'typedef') if prof.typedefs and draw(st.booleans()) else ()
+                out.append(M.Namespace(nm, draw(contents(ctx, path + (nm,), depth_left - 1,
+                                                         lead=again))))
+                continue
             if prof.same_leaf_ns and not prof.compilable and leaves and \
                     draw(st.integers(0, 1)) == 0:
                 nm = draw(st.sampled_from(leaves))
@@ -931,6 +967,13 @@ def contents(draw, ctx: Ctx, path: Tuple[str, ...], depth_left: int, max_items=N
             out.append(M.Namespace(nm, draw(contents(ctx, path + (nm,), depth_left - 1,
                                                      lead=lead_))))
             ctx.ns_paths.append(path + (nm,))
+    here = sorted({p_[-1] for p_ in ctx.ns_paths if p_[:-1] == path})
+    if prof.reopen_ns and here and depth_left > 0 and draw(st.integers(0, 3)) == 0:
+        # ... as the last thing in its scope, too (a project's later file)
+        nm = draw(st.sampled_from(here))
+        again = ('class', 'typedef') if prof.typedefs and draw(st.booleans()) else ()
+        out.append(M.Namespace(nm, draw(contents(ctx, path + (nm,), depth_left - 1,
+                                                 lead=again))))
     if prof.move_typedefs:
         for i in range(len(out)):
             if isinstance(out[i], M.Typedef) and i > 0 and draw(st.integers(0, 2)) == 0:
